@@ -12,7 +12,9 @@ P("C01", "proof", "Lean 4 refinement theorems (model = StdSpec, all interleaving
   "on every run, and the model with the crate on all interleavings up to a bound.",
   "Theorems are about the token-level model and the declarative StdSpec; model=code and StdSpec=std are validated by "
   "differential testing on bounded-exhaustive + random inputs, not proved. std::path of the pinned toolchain is the reference.",
-  theorems=["TP.C01.unix_front_all", "TP.C01.unix_interleave", "TP.C01.unix_remainder", "TP.C01.unix_has_root"],
+  theorems=["TP.C01.unix_front_all", "TP.C01.unix_interleave", "TP.C01.unix_remainder", "TP.C01.unix_has_root",
+            "TP.C01.unix_parser_alts_covered", "TP.C01.common_parser_alts_covered"],
+  modules=["TypedPathVerif.Props.C01b"],
   rule=NONTRIV + "non-trivial = at least two components; distinct by (input, mask)", design_ref="§5 C01")
 
 P("C02", "proof", "Lean 4 theorems (decomposition after the prefix = split-based grammar; prefix unique/first/raw; drive letter; all queries) + model/code correspondence; prefix kind/payload classification by grammar oracle",
@@ -48,8 +50,9 @@ P("C02", "proof", "Lean 4 theorems (decomposition after the prefix = split-based
             "TP.C02b.prefixVerbatim_guards_redundant", "TP.C02b.takeNormal_iff",
             "TP.Win.unc_complete_iff", "TP.Win.verbatim_unc_complete_iff", "TP.Win.verbatim_named_iff", "TP.Win.parsePrefix_alts",
             "TP.C02c.verbatim_empty_iff", "TP.C02c.verbatim_UNC_name_iff", "TP.C02c.unc_noshare_iff", "TP.C02c.verbatim_unc_noshare_iff",
-            "TP.C02c.prefix_result_classified", "TP.C02c.prefix_none_iff"],
-  modules=["TypedPathVerif.Props.C02b", "TypedPathVerif.Lemmas.WinStable", "TypedPathVerif.Props.C02c"],
+            "TP.C02c.prefix_result_classified", "TP.C02c.prefix_none_iff",
+            "TP.Win.stable_verbatimUNC_noshare_sep", "TP.Win.kind_sets_read", "TP.C02e.windows_parser_alts_covered"],
+  modules=["TypedPathVerif.Props.C02b", "TypedPathVerif.Lemmas.WinStable", "TypedPathVerif.Props.C02c", "TypedPathVerif.Props.C02d", "TypedPathVerif.Props.C02e"],
   rule=NONTRIV + "non-trivial = prefix or at least two components", design_ref="§5 C02")
 
 P("C03", "proof", "Lean 4 theorems (induction over tokens and over the step list) + model/code correspondence",
@@ -62,7 +65,9 @@ P("C03", "proof", "Lean 4 theorems (induction over tokens and over the step list
   "Theorems are about the token-level model; that the Rust parsers behave like the model is validated by differential "
   "testing (bounded-exhaustive + random), not proved. UTF-8 / typed / byte-slice iterator wrappers are covered by the "
   "oracle (implementation vs implementation), not by a theorem.",
-  theorems=["TP.C03.dei_reverse", "TP.C03.dei_interleave", "TP.C03.dei_exhaust", "TP.C03.dei_stays_exhausted", "TP.C03.dei_conservation"],
+  theorems=["TP.C03.dei_reverse", "TP.C03.dei_interleave", "TP.C03.dei_exhaust", "TP.C03.dei_stays_exhausted", "TP.C03.dei_conservation",
+            "TP.C01.unix_parser_alts_covered", "TP.C02e.windows_parser_alts_covered"],
+  modules=["TypedPathVerif.Props.C01b", "TypedPathVerif.Props.C02e"],
   rule=NONTRIV + "non-trivial = at least two components; distinct by (encoding, input, mask)", design_ref="§5 C03")
 
 P("C04", "proof", "Lean 4 theorems (acceptance rule, first-offender error, append lemma for Unix and prefix-free Windows bases) + model/code correspondence; keeps-base for prefixed Windows bases by oracle (known finding K3)",
